@@ -3,6 +3,7 @@
 under /verif/seeded/<ID>/<slug>/ (patch.diff, demo_test.go, meta.json)."""
 import json, os, shutil, sys, re
 ID, n, slug, kind = sys.argv[1:5]
+ROUND = os.environ.get("ROUND", "1")
 needs = " ".join(sys.argv[5:])
 src = "/tmp/mut/%s/_out" % ID
 dst = "/verif/seeded/%s/%s" % (ID, slug)
@@ -13,7 +14,7 @@ files = re.findall(r"^\+\+\+ b/(\S+)", open(os.path.join(dst, "patch.diff")).rea
 demo_head = open(os.path.join(dst, "demo_test.go")).readline().strip()
 meta = {
     "property": ID,
-    "origin": "fresh sub-agent given only the property text and a scratch worktree of /repo (round 1)",
+    "origin": "fresh sub-agent given only the property text and a scratch worktree of /repo (round " + ROUND + ")",
     "files": files,
     "manifests_through": kind,
     "needs": needs,
